@@ -104,9 +104,11 @@ def gen_cases(rng, tier):
                 ops.append(["ucmp", rng.choice(["lt", "le", "gt", "ge"]), u, v])
         # units of a QUANTISED type compare by their exact scales too (also
         # units smaller than the quantum or between two multiples of it)
-        for _ in range(8 if len(qunits) >= 2 else 0):
-            u = rng.choice(qunits)
-            v = rng.choice([x for x in qunits if ctx.units[x]["cls"] == ctx.units[u]["cls"]])
+        qpairs = [(u, v) for u in qunits for v in qunits
+                  if u != v and ctx.units[u]["cls"] == ctx.units[v]["cls"]]
+        # smallest scales first: units below the quantum are the interesting ones
+        qpairs.sort(key=lambda p: (abs(ctx.units[p[0]]["scale"]) + abs(ctx.units[p[1]]["scale"]), p))
+        for u, v in qpairs[:24]:
             ops.append(["ueq", u, v])
             ops.append(["ucmp", rng.choice(["lt", "le", "gt", "ge"]), u, v])
         cases.append(_qty.case_of(ctx, ops, ["compare"]))
